@@ -125,7 +125,7 @@ func cmpStat(got, want *types.Stat, linkMember bool) error {
 	if got.Linkname != want.Linkname {
 		return fmt.Errorf("linkname %q want %q", got.Linkname, want.Linkname)
 	}
-	if !linkMember && got.Size != want.Size {
+	if got.Size != want.Size {
 		return fmt.Errorf("size %d want %d", got.Size, want.Size)
 	}
 	if got.Devmajor != want.Devmajor || got.Devminor != want.Devminor {
